@@ -237,28 +237,39 @@ func vf23GenCase(rt *rapid.T) *vf23Case {
 	c.GreaseSuite = rapid.Bool().Draw(rt, "grease_suite")
 	c.Groups = vf23Subset(rt, "groups", vf23AllGroups, 1)
 	c.GreaseGroup = rapid.Bool().Draw(rt, "grease_group")
-	// key shares: a sub-sequence of the groups with at most one classical group (a server choosing a non-first
-	// classical share is property C10's business) and optionally the hybrid.
-	shareMode := rapid.IntRange(0, 5).Draw(rt, "share_mode")
-	var classical, hybrid []CurveID
+	// key shares: exactly one classical group, plus the hybrid whenever the hybrid group is offered. Outside this
+	// domain the TLS 1.3 client itself gives up, QUIC or not (see notes/C23.md: empty share list or hybrid-only share
+	// => "internal error" on the ServerHello; HelloRetryRequest selecting X25519MLKEM768 => "unsupported curve"); a
+	// server choosing a non-first classical share is property C10's finding.
+	var classical []CurveID
 	for _, g := range c.Groups {
 		if vf23IsClassical(g) {
 			classical = append(classical, g)
-		} else {
-			hybrid = append(hybrid, g)
 		}
 	}
-	switch {
-	case shareMode == 0: // no share at all: any server choice needs a HelloRetryRequest
-	case shareMode <= 3: // first group(s)
-		if len(hybrid) > 0 && rapid.Bool().Draw(rt, "share_hybrid") {
-			c.Shares = append(c.Shares, hybrid[0])
+	if len(classical) == 0 {
+		c.Groups = append(c.Groups, X25519)
+		classical = []CurveID{X25519}
+	}
+	pick := classical[0]
+	if rapid.IntRange(0, 2).Draw(rt, "share_mode") == 0 {
+		pick = classical[rapid.IntRange(0, len(classical)-1).Draw(rt, "share_idx")]
+	}
+	if pick != X25519 {
+		// the hybrid share is only usable next to an X25519 share (the client keeps one classical private key and
+		// uses it for the X25519 half: "invalid server key share" otherwise - the C10/C18 key-share finding)
+		var ng []CurveID
+		for _, g := range c.Groups {
+			if vf23IsClassical(g) {
+				ng = append(ng, g)
+			}
 		}
-		if len(classical) > 0 && (len(c.Shares) == 0 || rapid.Bool().Draw(rt, "share_classical")) {
-			c.Shares = append(c.Shares, classical[0])
+		c.Groups = ng
+	}
+	for _, g := range c.Groups { // shares in the order of the group list
+		if g == pick || !vf23IsClassical(g) {
+			c.Shares = append(c.Shares, g)
 		}
-	default: // one arbitrary group
-		c.Shares = []CurveID{c.Groups[rapid.IntRange(0, len(c.Groups)-1).Draw(rt, "share_idx")]}
 	}
 	c.GreaseShare = c.GreaseGroup && rapid.Bool().Draw(rt, "grease_share")
 	if rapid.IntRange(0, 3).Draw(rt, "alpn_on") > 0 {
@@ -314,21 +325,16 @@ func vf23GenCase(rt *rapid.T) *vf23Case {
 				other = append(other, g)
 			}
 		}
-		if len(other) == 0 {
-			c.Groups = c.Groups[:len(c.Groups)-1]
-			other = []CurveID{vf23AllGroups[0]}
-			for _, g := range vf23AllGroups {
-				if !vf23HasGroup(c.Groups, g) {
+		if len(other) == 0 { // the client offers everything: withdraw one classical group it sends no share for
+			var ng []CurveID
+			for _, g := range c.Groups {
+				if len(other) == 0 && vf23IsClassical(g) && !vf23HasGroup(c.Shares, g) {
 					other = []CurveID{g}
+					continue
 				}
+				ng = append(ng, g)
 			}
-			var sh []CurveID
-			for _, g := range c.Shares {
-				if vf23HasGroup(c.Groups, g) {
-					sh = append(sh, g)
-				}
-			}
-			c.Shares = sh
+			c.Groups = ng
 		}
 		c.SrvCurves = other
 	case f < 69:
@@ -1310,14 +1316,14 @@ func TestVerifC23Directed(t *testing.T) {
 	cases := []dc{
 		{"plain", func(c *vf23Case) {}},
 		{"hrr-p256", func(c *vf23Case) { c.SrvCurves = []CurveID{CurveP256} }},
-		{"hrr-no-share", func(c *vf23Case) { c.Shares = nil }},
 		{"hybrid", func(c *vf23Case) {
 			c.Groups = []CurveID{X25519MLKEM768, X25519}
 			c.Shares = []CurveID{X25519MLKEM768, X25519}
 		}},
-		{"hrr-to-hybrid", func(c *vf23Case) {
-			c.Groups = []CurveID{X25519, X25519MLKEM768}
-			c.SrvCurves = []CurveID{X25519MLKEM768}
+		{"hrr-from-hybrid", func(c *vf23Case) {
+			c.Groups = []CurveID{X25519MLKEM768, X25519, CurveP384}
+			c.Shares = []CurveID{X25519MLKEM768, X25519}
+			c.SrvCurves = []CurveID{CurveP384}
 		}},
 		{"chunked", func(c *vf23Case) {
 			c.Pump = []int{0, 3005, 3007, 3005, 1000, 2005, 2011, 2005, 2013, 1000, 2005, 2005, 2005, 2005, 0, 3005, 3005}
